@@ -158,6 +158,7 @@ fn windower_case<F: Content>(kind: &str, l: usize, b: usize, h: usize) -> Option
         ($W:ty) => {{
             let mut wd: Windower<F, $W> = Windower::new(&frames[..], b, h);
             let mut k = 0usize;
+            let mut all_chunks: Vec<Vec<F>> = Vec::new();
             loop {
                 let remaining = expected_chunks.saturating_sub(k);
                 let (lo, hi) = wd.size_hint();
@@ -186,6 +187,7 @@ fn windower_case<F: Content>(kind: &str, l: usize, b: usize, h: usize) -> Option
                                 ));
                             }
                         }
+                        all_chunks.push(got);
                         k += 1;
                         if k > l + 2 {
                             return Some(("windower.count".to_string(), format!("{tag}: does not terminate")));
@@ -195,6 +197,14 @@ fn windower_case<F: Content>(kind: &str, l: usize, b: usize, h: usize) -> Option
             }
             if k != expected_chunks {
                 return Some(("windower.count".to_string(), format!("{tag}: yielded {k} chunks, expected floor((L-b)/h)+1 = {expected_chunks}")));
+            }
+            // the rest of the Iterator protocol (nth, skip, step_by, count, last, size_hint bounds after
+            // every cursor position) must agree with the chunks next() has just yielded
+            if l <= 40 {
+                let mk = || common::iterproto::Through(Windower::<F, $W>::new(&frames[..], b, h), |c: dasp_signal::window::Windowed<_, $W>| c.take(b).collect::<Vec<F>>());
+                if let Some(m) = common::iterproto::check(&mk, &all_chunks, false) {
+                    return Some(("windower.iter".to_string(), format!("{tag}: {m}")));
+                }
             }
         }};
     }
@@ -243,7 +253,7 @@ fn main() {
     let thorough = ctx.thorough();
     ctx.rule("hann: every f32 phase in [0,1] (thorough) / 2^21-point bit-pattern grid (quick), f64 grid of 2^20 (quick) / 2^24 (thorough) points plus 1-ulp neighbourhoods of 0, 1/4, 1/2, 3/4, 1: |w - 0.5(1-cos 2 pi p)| <= 4 eps, 0<=w<=1, symmetry, special points; rectangle == 1 on the same grids");
     ctx.rule("Window iterator: n = 2..=64 (quick) / 2..=1024 (thorough) and 100, 257, 1000, 4096, 65535, 65536, 65537, both windows, frames f64 / [f32;2] / [i16;2]: i-th value == window(i/(n-1)) within n*eps");
-    ctx.rule("Windower: every (L in 0..=24 (thorough 0..=40), bin 2..=L+2, hop 1..=L+2) x {hann, rectangle} x {f64, [f32;2], [i16;2]}: chunk count == floor((L-b)/h)+1 if L>=b else 0, chunk k frame i == frames[k*h+i] scaled by window(i/(b-1)), size_hint().0 <= remaining <= size_hint().1 before every next(); non-trivial = at least one chunk, distinct by (window, format, L, b, h); scale probes: slices of 100, 257, 1000 and of 65535, 65536, 65537 frames with structured (bin, hop)");
+    ctx.rule("Windower: every (L in 0..=24 (thorough 0..=40), bin 2..=L+2, hop 1..=L+2) x {hann, rectangle} x {f64, [f32;2], [i16;2]}: chunk count == floor((L-b)/h)+1 if L>=b else 0, chunk k frame i == frames[k*h+i] scaled by window(i/(b-1)), size_hint().0 <= remaining <= size_hint().1 before every next(); non-trivial = at least one chunk, distinct by (window, format, L, b, h); scale probes: slices of 100, 257, 1000 and of 65535, 65536, 65537 frames with structured (bin, hop); for L <= 40 also nth / skip / step_by / count / last / size_hint after every cursor position against the chunks next() yields");
 
     // ---- hann / rectangle at every phase
     let one = 1.0f32.to_bits();
